@@ -844,6 +844,8 @@ class Interp:
         recv = self.eval(unit, n["recv"], env, this) if n.get("recv") is not None else None
         if n.get("arrow") and isinstance(recv, tuple) and recv and recv[0] in ("iter", "addr"):
             recv = recv[1]
+        if n.get("opcall") in ("->", "*") and not n.get("args") and isinstance(recv, tuple) and recv and recv[0] == "iter":
+            return recv[1]    # dereference of the position a search summary returned
         # closure call
         if d.get("lambda_class") is not None:
             args = [self.eval(unit, a, env, this) for a in n.get("args", [])]
@@ -998,6 +1000,19 @@ class Interp:
                     v = self.apply(args[1], [e], unit, unit.loc(n.get("loc")), None)
                     if self.truth(v):
                         return ("new", OPT, "some", (("iter", e),))
+                return ("new", OPT, "none", ())
+            if isinstance(args[0], tuple) and args[0] and args[0][0] in ("sym", "fld", "ev"):
+                # run-time range: the same `more(range, i)` atoms a later range-for over the same range decides
+                i = 0
+                while self.decide(("more", args[0], i)):
+                    if i >= self.cfg.loop_bound:
+                        self.event("loop-bound", [], unit.loc(n.get("loc")))
+                        raise _Truncated()
+                    e = ("elem", args[0], i)
+                    v = self.apply(args[1], [e], unit, unit.loc(n.get("loc")), None)
+                    if self.truth(v):
+                        return ("new", OPT, "some", (("iter", e),))
+                    i += 1
                 return ("new", OPT, "none", ())
         if qn == "fcppt::algorithm::all_of" and len(args) == 2:
             # summary (trusted, listed in the evidence): conjunction in iteration order, short-circuit
